@@ -219,7 +219,50 @@ def unique_ids():
     return ob
 
 
-HOSTILE = ['</script>', '</SCRIPT >', '<!--', '<!--<script>', ']]>', '/* JS_PLACEHOLDER */', '/* DATA_PLACEHOLDER */', '/* CSS_PLACEHOLDER */', '"quoted"',
+def unique_ids3():
+    """Three or four merchants whose names collapse to related ids ("a'", "a", "a 2", "a_2"): every one survives in the data."""
+    def ob(n1: str, variant: int) -> bool:
+        """
+        pre: 1 <= len(n1) <= NLEN and 0 <= variant <= 3 and all(c in 'a _' + chr(39) + chr(34) for c in n1)
+        post: _
+        """
+        from datetime import datetime
+        from tally import report
+        from tally.analyzer import analyze_transactions
+        import ast as _ast
+        n1 = _ast.literal_eval(repr(n1))
+        base = n1.replace("'", '').replace('"', '')
+        extra = [base + ' 2', base + '_2', base.replace(' ', '_') + '_2', base + "'"][int(variant)]
+        names = []
+        for n in (n1, base, extra, base + '_3'):
+            if n and n.strip() and n not in names:
+                names.append(n)
+        txns = [{'merchant': n, 'category': 'C', 'subcategory': 'S', 'date': datetime(2024, 1, 5), 'amount': 5.0 + i, 'tags': [], 'description': n,
+                 'raw_description': n, 'source': 'S', 'location': None} for i, n in enumerate(names)]
+        stats = analyze_transactions(txns)
+        captured = []
+        saved = (report.json, report.Path)
+
+        class J:
+            @staticmethod
+            def dumps(obj, **kw):
+                captured.append(obj)
+                return '{}'
+        report.json = J()
+        report.Path = _PathRec
+        try:
+            report.write_summary_file_vue(stats, '/out/r.html')
+        finally:
+            report.json, report.Path = saved
+        got = []
+        for cat in captured[-1]['categoryView'].values():
+            for sub in cat['subcategories'].values():
+                got += [m['displayName'] for m in sub['merchants'].values()]
+        return post(sorted(got) == sorted(names))
+    return ob
+
+
+HOSTILE = ['</script>', '</SCRIPT >', '</Script>x', 'a</sCrIpT\n>', '<!-- <SCRIPT>', '<!--', '<!--<script>', ']]>', '/* JS_PLACEHOLDER */', '/* DATA_PLACEHOLDER */', '/* CSS_PLACEHOLDER */', '"quoted"',
            'back\\slash', "it's", 'café €', ' line', '<script>alert(1)</script>']
 
 
@@ -302,6 +345,8 @@ def obligations(tier, seed):
                               bounds=f'layout {l} ({len(LAYOUTS[l])} transactions with symbolic non-zero real amounts), views {v}, format {w}, verbosity 0-2'))
     obs.append(Obligation(id='unique-merchant-ids', factory='unique_ids', timeout=to, group='merchant ids are unique',
                           bounds='two distinct merchant names (1-2 chars and 1 char) over (a, blank, _, single quote, double quote)'))
+    obs.append(Obligation(id='unique-merchant-ids-3', factory='unique_ids3', timeout=to, group='merchant ids are unique',
+                          bounds='3-4 merchant names derived from a symbolic name (1-2 chars over a, blank, _, quotes): the name, the name without quotes, and "<base> 2" / "<base>_2" / "<base>_3" variants'))
     for i, t in enumerate(HOSTILE):
         obs.append(Obligation(id=f'parse-back-{i:02d}', factory='parse_back', params={'i': i}, engine='smt', twin=False, timeout=60,
                               group='HTML parse-back on hostile strings (direct runs)', bounds=f'description / source name {t!r}'))
